@@ -176,27 +176,75 @@ class History:
         self.name = name
 
 
-def _run_proc(cmd, lines, timeout, env=None, cwd=None):
-    """Feeds lines, returns output lines (may be shorter when the process died) and rc."""
+STALL = float(os.environ.get("VERIF_STALL", "45"))
+
+
+def _run_proc(cmd, lines, timeout, env=None, cwd=None, stall=None):
+    """Feeds lines, returns output lines (may be shorter when the process died) and rc.
+    The process is killed when it runs longer than `timeout` in all, or when it has printed nothing for `stall` seconds while
+    input is still unanswered (every engine answers one line per op and flushes: a silent process is a hung one — a deadlock
+    in the code under test must cost one stall period, not the whole timeout of every chunk that meets it)."""
     # every engine process gets a scratch directory of its own, removed when the process has ended — also when it died
     # (a crashing harness cannot clean up after itself) or was killed for a timeout
     base = (env or os.environ).get("VERIF_SCRATCH") or tempfile.gettempdir()
     scratch = tempfile.mkdtemp(prefix="bxhverif-run-", dir=base)
     env = dict(env or os.environ, VERIF_SCRATCH=scratch)
+    stall = STALL if stall is None else stall
+    import threading
     try:
-        p = subprocess.run(cmd, input="\n".join(lines) + "\n", stdout=subprocess.PIPE, stderr=subprocess.PIPE,
-                           text=True, timeout=timeout, env=env, cwd=cwd)
-        return p.stdout.split("\n")[:-1] if p.stdout.endswith("\n") else p.stdout.split("\n"), p.returncode, p.stderr[-2000:]
-    except subprocess.TimeoutExpired as e:
-        out = e.stdout or ""
-        if isinstance(out, bytes):
-            out = out.decode(errors="replace")
-        return out.split("\n")[:-1], -9, "TIMEOUT"
+        p = subprocess.Popen(cmd, stdin=subprocess.PIPE, stdout=subprocess.PIPE, stderr=subprocess.PIPE, text=True, env=env, cwd=cwd)
+        out_chunks, err_chunks = [], []
+        last = [time.time()]
+
+        def feed():
+            try:
+                p.stdin.write("\n".join(lines) + "\n")
+                p.stdin.close()
+            except Exception:
+                pass
+
+        def rd_out():
+            for ln in p.stdout:
+                out_chunks.append(ln)
+                last[0] = time.time()
+
+        def rd_err():
+            for ln in p.stderr:
+                err_chunks.append(ln)
+                if len(err_chunks) > 400:
+                    del err_chunks[:200]
+
+        ths = [threading.Thread(target=f, daemon=True) for f in (feed, rd_out, rd_err)]
+        for t in ths:
+            t.start()
+        t0 = time.time()
+        why = None
+        while True:
+            try:
+                p.wait(timeout=0.5)
+                break
+            except subprocess.TimeoutExpired:
+                now = time.time()
+                if now - t0 > timeout:
+                    why = "TIMEOUT"
+                elif now - last[0] > stall:
+                    why = f"TIMEOUT (no output for {int(stall)} s: hung)"
+                if why:
+                    p.kill()
+                    p.wait()
+                    break
+        for t in ths[1:]:
+            t.join(timeout=5)
+        out = "".join(out_chunks)
+        outl = out.split("\n")[:-1] if out.endswith("\n") else out.split("\n")
+        if why:
+            return (out.split("\n")[:-1]), -9, why
+        return outl, p.returncode, "".join(err_chunks)[-2000:]
     finally:
         shutil.rmtree(scratch, ignore_errors=True)
 
 
-def run_side(cmd, histories, timeout=600, env=None):
+def run_side(cmd, histories, timeout=600, env=None, stall=None):
     """Runs each history through `cmd` (one process per chunk, `reset` between histories).
     Returns list of output-line lists, one per history; a history whose process died gets the
     lines produced so far followed by 'DIED <rc>'."""
@@ -217,7 +265,7 @@ def run_side(cmd, histories, timeout=600, env=None):
                 start = len(lines)
                 lines.extend(histories[i].ops)
                 spans.append((i, start, len(lines)))
-            out, rc, err = _run_proc(cmd, lines, timeout, env=env)
+            out, rc, err = _run_proc(cmd, lines, timeout, env=env, stall=(stall if cmd and cmd[0] == BXHDRIVE else 10 ** 9))
             nxt = []
             for (i, a, b) in spans:
                 if len(out) >= b:
@@ -275,10 +323,12 @@ def shrink(engine, hist, still_fails, budget=150):
     return head + ops
 
 
-def _shrink(ops, still_fails, budget):
+def _shrink(ops, still_fails, budget, wall=None):
     n = 2
     calls = 0
-    while len(ops) >= 2 and calls < budget:
+    wall = float(os.environ.get("VERIF_SHRINK_WALL", "240")) if wall is None else wall
+    t0 = time.time()
+    while len(ops) >= 2 and calls < budget and time.time() - t0 < wall:
         chunk = max(1, len(ops) // n)
         reduced = False
         for i in range(0, len(ops), chunk):
@@ -291,7 +341,7 @@ def _shrink(ops, still_fails, budget):
                 n = max(n - 1, 2)
                 reduced = True
                 break
-            if calls >= budget:
+            if calls >= budget or time.time() - t0 >= wall:
                 break
         if not reduced:
             if chunk == 1:
